@@ -64,7 +64,7 @@ def check(run):
             from vlib import Inconclusive
             raise Inconclusive("harness-level inconsistency: %s" % syncfam.harness_failures(tr_all)[:2])
         tr = syncfam.filter_prefix(tr_all, {"C05"})
-        fails += syncfam.confirm_by_replay_prefixed(run, "sync", "SyncTrace", tr, {"C05"}, _sig, syncfam.text_default, fam_extra)
+        fails += syncfam.confirm_by_replay_prefixed(run, "sync", "SyncTrace", tr, {"C05"}, _sig, syncfam.text_default, fam_extra, witness=True)
     for nm, fn in (("drop one add/modify notification", _drop_note), ("corrupt the byte part of one digest", _wrong_digest),
                    ("drop the only delete notification of a case", _drop_delete)):
         syncfam.selftest_corrupt_prefixed(run, "SyncTrace", t1, fn, nm, {"C05"})
